@@ -77,11 +77,14 @@ type txDB struct {
 	W, H     map[txTarget]*vsql.Table
 	// version counters of the committed state, bumped whenever W / H of a target changes
 	verW, verH map[txTarget]int
+	// commit hash of every branch head (part of the snapshot: "did the head move since my
+	// transaction began" is a question about the commit, not about the rows)
+	headHash map[string]string
 }
 
 func newTxDB(branches []string, schemas []*txSchema) *txDB {
 	d := &txDB{branches: branches, schemas: schemas, W: map[txTarget]*vsql.Table{}, H: map[txTarget]*vsql.Table{},
-		verW: map[txTarget]int{}, verH: map[txTarget]int{}}
+		verW: map[txTarget]int{}, verH: map[txTarget]int{}, headHash: map[string]string{}}
 	for _, b := range branches {
 		for _, s := range schemas {
 			d.W[txTarget{b, s.name}] = vsql.NewTable(s.cols, 1)
@@ -112,7 +115,10 @@ func (d *txDB) schema(table string) *txSchema {
 
 func (d *txDB) clone() *txDB {
 	c := &txDB{branches: d.branches, schemas: d.schemas, W: map[txTarget]*vsql.Table{}, H: map[txTarget]*vsql.Table{},
-		verW: map[txTarget]int{}, verH: map[txTarget]int{}}
+		verW: map[txTarget]int{}, verH: map[txTarget]int{}, headHash: map[string]string{}}
+	for b, h := range d.headHash {
+		c.headHash[b] = h
+	}
 	for _, t := range d.targets() {
 		c.W[t] = d.W[t].Clone()
 		c.H[t] = d.H[t].Clone()
